@@ -148,6 +148,10 @@ func (d *dataTracer) trace(data []byte) {
 	}
 }
 
+// maxEndStreamPrealloc bounds the buffer allocated up-front for the contents of
+// an end-stream message.
+const maxEndStreamPrealloc = 32 * 1024
+
 func (d *dataTracer) tracePrefixLocked(data []byte) (int, bool) {
 	need := prefixLen - len(d.prefix)
 	if len(data) < need {
@@ -180,7 +184,9 @@ func (d *dataTracer) tracePrefixLocked(data []byte) (int, bool) {
 		d.env = nil
 	} else if !d.isRequest && (d.env.Flags&0x82) != 0 {
 		// This is a response end-stream message. Capture the contents.
-		d.endStream = bytes.NewBuffer(make([]byte, 0, d.env.Len))
+		// The announced length comes from the peer, so it must not be trusted
+		// as an allocation size: the buffer grows as data actually arrives.
+		d.endStream = bytes.NewBuffer(make([]byte, 0, min(d.env.Len, maxEndStreamPrealloc)))
 	}
 	return need, true
 }
